@@ -10,6 +10,7 @@ Structural clauses decided:
   T6  MALLOC/CALLOC/REALLOC/FREE/STRDUP map to the tracking wrappers iff DEBUG >= DEBUG_MEM; FREE nulls its argument
   T7  no raw allocator call outside mem.c except through the allocation macros (frozen exceptions with reasons)
   T8  the record's file name is copied with a bound equal to the size of the field it is copied into
+  T9  removing a record moves exactly the records behind its slot down by one (GHOSTPOS over count and slot offset)
 """
 import json
 import os
